@@ -17,8 +17,20 @@ func calleeText(e *ast.CallExpr) string {
 	case *ast.Ident:
 		return f.Name
 	case *ast.SelectorExpr:
-		if id, ok := ast.Unparen(f.X).(*ast.Ident); ok {
-			return id.Name + "." + f.Sel.Name
+		// x.f, x.y.f, ... are written out; anything else in receiver position is "_"
+		var path []string
+		cur := ast.Unparen(f.X)
+		for {
+			switch x := cur.(type) {
+			case *ast.Ident:
+				path = append([]string{x.Name}, path...)
+				return strings.Join(path, ".") + "." + f.Sel.Name
+			case *ast.SelectorExpr:
+				path = append([]string{x.Sel.Name}, path...)
+				cur = ast.Unparen(x.X)
+				continue
+			}
+			break
 		}
 		return "_." + f.Sel.Name
 	case *ast.IndexExpr:
@@ -312,6 +324,23 @@ func (fc *FnCtx) contractCall(st *State, e *ast.CallExpr, fn *types.Func, sig *t
 		}
 		fc.assert(st, fmt.Sprintf("pre-call-%s#%d/%s", ctext, ord, label), "pre-call", t, e.Pos(), "requires "+r.Src)
 	}
+	// a callee under contract in this package assumes the package invariants on entry and re-establishes them
+	// at every return (they are obligations of its own verification)
+	var calleeInvs []*Clause
+	if !c.Trusted && c.PkgPath == fc.contract.PkgPath && c.Opts["noinv"] != "true" && fc.inlineDepth == 0 {
+		calleeInvs = fc.pkgInvs()
+		if len(calleeInvs) > 0 {
+			fc.invCallOrd++
+			for i, inv := range calleeInvs {
+				fc.assert(st, fmt.Sprintf("inv-global#%s@call#%d", clauseLabel(inv, i), fc.invCallOrd), "inv-global", fc.invTerm(st, inv), e.Pos(), "invariant "+inv.Src+"   before call "+ctext)
+			}
+		}
+	}
+	defer func() {
+		for _, inv := range calleeInvs {
+			fc.assume(st, fc.invTerm(st, inv))
+		}
+	}()
 	// frame
 	if c.HasAssigns {
 		for _, a := range c.Assigns {
